@@ -419,6 +419,7 @@ func checkC02(w *World, r *Report) {
 	r.Counts["reads of written shared locations"] = nR
 
 	checkR02_2(w, r)
+	checkSharedCounters(w, r, fns, reach, isShared, roots)
 	checkLockLeaks(w, r, la, "R02.3")
 	// the pool hand-off rule
 	checkR01_4(w, r)
@@ -653,4 +654,156 @@ func (w *World) confinedTypes() map[string]bool {
 	}
 	w.confinedMemo = out
 	return out
+}
+
+// R02.4 — what one call returns does not depend on how many other calls are in flight: a shared
+// integer location (field of a long-lived struct or package variable) that is written — by a
+// store or a sync/atomic operation, locked or not — in code reachable from the concurrent roots
+// never decides whether a function in that code returns (or panics): no Return/Panic is control
+// dependent on a condition computed from a read of such a location.  Locks and atomics make a
+// counter race-free, not per-call: a nesting depth, an in-flight count or a budget kept on the
+// engine is the sum over all goroutines.  (Cache sizes that only decide whether to evict are
+// not affected: eviction does not return.)
+func checkSharedCounters(w *World, r *Report, fns []*ssa.Function, reach map[*ssa.Function]bool, isShared func(string, ssa.Value) bool, roots []*ssa.Function) {
+	isInt := func(t types.Type) bool {
+		b, ok := t.Underlying().(*types.Basic)
+		return ok && b.Info()&types.IsInteger != 0
+	}
+	isAtomicInt := func(t types.Type) bool {
+		n, ok := t.(*types.Named)
+		return ok && n.Obj().Pkg() != nil && n.Obj().Pkg().Path() == "sync/atomic" && strings.HasPrefix(n.Obj().Name(), "Int") || ok && n.Obj().Pkg() != nil && n.Obj().Pkg().Path() == "sync/atomic" && strings.HasPrefix(n.Obj().Name(), "Uint")
+	}
+	// atomicOp: the call is a sync/atomic operation on a shared location; writes/reads tell what it does
+	atomicOp := func(c ssa.CallInstruction) (loc string, writes, reads bool, ok bool) {
+		f := calleeFunc(c)
+		if f == nil || f.Pkg() == nil || f.Pkg().Path() != "sync/atomic" || len(c.Common().Args) == 0 {
+			return "", false, false, false
+		}
+		name := f.Name()
+		switch {
+		case strings.HasPrefix(name, "Add"), strings.HasPrefix(name, "Swap"), strings.HasPrefix(name, "CompareAndSwap"), strings.HasPrefix(name, "And"), strings.HasPrefix(name, "Or"):
+			writes, reads = true, true
+		case strings.HasPrefix(name, "Store"):
+			writes = true
+		case strings.HasPrefix(name, "Load"):
+			reads = true
+		default:
+			return "", false, false, false
+		}
+		owner, path, root, lok := w.locOf(c.Common().Args[0])
+		if !lok || !isShared(owner, root) {
+			return "", false, false, false
+		}
+		return owner + "." + path, writes, reads, true
+	}
+	written := map[string]string{} // location -> where it is written
+	for _, fn := range fns {
+		if !reach[fn] {
+			continue
+		}
+		instrsOf(fn, func(in ssa.Instruction) {
+			switch x := in.(type) {
+			case *ssa.Store:
+				if !isInt(x.Val.Type()) {
+					return
+				}
+				if owner, path, root, ok := w.locOf(x.Addr); ok && isShared(owner, root) {
+					if _, seen := written[owner+"."+path]; !seen {
+						written[owner+"."+path] = w.posOf(in.Pos())
+					}
+				}
+			case ssa.CallInstruction:
+				if loc, wr, _, ok := atomicOp(x); ok && wr {
+					if _, seen := written[loc]; !seen {
+						written[loc] = w.posOf(in.Pos())
+					}
+				}
+			}
+		})
+	}
+	n := 0
+	for _, fn := range fns {
+		if !reach[fn] {
+			continue
+		}
+		// reads of written counters
+		tainted := map[ssa.Value]string{}
+		instrsOf(fn, func(in ssa.Instruction) {
+			switch x := in.(type) {
+			case *ssa.UnOp:
+				if x.Op == token.MUL && (isInt(x.Type()) || isAtomicInt(x.Type())) {
+					if owner, path, root, ok := w.locOf(x.X); ok && isShared(owner, root) {
+						if _, wr := written[owner+"."+path]; wr {
+							tainted[x] = owner + "." + path
+						}
+					}
+				}
+			case *ssa.Call:
+				if loc, _, rd, ok := atomicOp(x); ok && rd {
+					if _, wr := written[loc]; wr {
+						tainted[x] = loc
+					}
+				}
+			}
+		})
+		if len(tainted) == 0 {
+			continue
+		}
+		for changed := true; changed; {
+			changed = false
+			instrsOf(fn, func(in ssa.Instruction) {
+				v, ok := in.(ssa.Value)
+				if !ok || tainted[v] != "" {
+					return
+				}
+				var ops []ssa.Value
+				switch x := in.(type) {
+				case *ssa.BinOp:
+					ops = []ssa.Value{x.X, x.Y}
+				case *ssa.Convert:
+					ops = []ssa.Value{x.X}
+				case *ssa.ChangeType:
+					ops = []ssa.Value{x.X}
+				case *ssa.Phi:
+					ops = x.Edges
+				case *ssa.UnOp:
+					if x.Op != token.MUL {
+						ops = []ssa.Value{x.X}
+					}
+				case *ssa.Extract:
+					ops = []ssa.Value{x.Tuple}
+				}
+				for _, o := range ops {
+					if l := tainted[o]; l != "" {
+						tainted[v] = l
+						changed = true
+						return
+					}
+				}
+			})
+		}
+		instrsOf(fn, func(in ssa.Instruction) {
+			switch in.(type) {
+			case *ssa.Return, *ssa.Panic:
+			default:
+				return
+			}
+			for _, cond := range controllingConds(in) {
+				var facts []condFact
+				expandCond(cond, true, &facts, 0)
+				expandCond(cond, false, &facts, 0)
+				for _, cf := range facts {
+					if loc := tainted[cf.v]; loc != "" {
+						n++
+						r.bad("R02.4", ssaName(fn), "return decided by the shared counter "+loc, w.posOf(in.Pos()), "whether this function returns here depends on "+loc+", an integer kept on a shared object and written (at "+written[loc]+") by calls that may run concurrently ("+strings.Join(w.pathTo(roots, fn), " → ")+"): the value is the sum over all goroutines using the engine, so what one call returns depends on how many others are in flight")
+						return
+					}
+				}
+			}
+		})
+	}
+	r.Counts["shared integer locations written from the concurrent roots"] = len(written)
+	if n == 0 {
+		r.ok("R02.4", "(package)", "no return is decided by a shared counter", "-", fmt.Sprintf("%d shared integer location(s) written from the concurrent roots; none of them controls a return or panic", len(written)), len(written) > 0)
+	}
 }
